@@ -214,6 +214,25 @@ def t_formula(rng, gid, configured=None, cls='FormulaGrader'):
             ans['msg'] = pick(rng, ['', 'noted'])
         cfg['answers'] = ans if maybe(rng, 0.7) else T(ans, {'expect': rights[0], 'grade_decimal': 0.5})
         targets.append({'name': stub, 'n': cfg.get('samples', 5), 'where': 'cmp'})
+    elif configured and maybe(rng, 0.12):
+        # built-in comparers of the library
+        which = rng.randrange(3)
+        if which == 0:
+            cfg['answers'] = {'expect': {'comparer': {'__cmp__': {'builtin': 'congruence_comparer'}},
+                                         'comparer_params': [answer, '2*pi']},
+                              'grade_decimal': pick(rng, [1, 0.5])}
+            pal['right'] = pal['right'] + ['%s+2*pi' % answer, '%s-4*pi' % answer]
+            pal['wrong'] = pal['wrong'] + ['%s+pi' % answer]
+        elif which == 1:
+            cfg['answers'] = {'expect': {'comparer': {'__cmp__': {'builtin': 'between_comparer'}},
+                                         'comparer_params': ['-1e6', '1e6']}}
+            pal['wrong'] = pal['wrong'] + ['1e7', '%s+i' % answer, '-1e9']
+        else:
+            cfg['answers'] = {'expect': {'comparer': {'__cmp__': {'cls': 'LinearComparer', 'cfg': {
+                'equals': 1.0, 'proportional': pick(rng, [0.5, 0]), 'offset': pick(rng, [0, 0.25]),
+                'linear': pick(rng, [0, 0.1])}}}, 'comparer_params': [answer]}}
+            cfg['samples'] = max(cfg.get('samples', 5), 3)
+            pal['wrong'] = pal['wrong'] + ['2*(%s)' % answer, '(%s)+3' % answer, '3*(%s)-1' % answer, '0']
     elif configured:
         cfg['answers'] = answers_of(rng, [answer] + rights, partial=partial)
     return {'bp': {'id': gid, 'cls': cls, 'cfg': cfg}, 'configured': configured, 'kind': 'text',
@@ -293,7 +312,29 @@ def t_matrix(rng, gid, configured=None, theme=False):
         cfg['user_functions'] = {'mf': {'__fn__': {'name': stub, 'kind': 'const', 'arity': 1, 'c': 1.0}}}
         rights = rights + ['mf(1)*(%s)' % answer, '(%s)*mf(1)' % answer]
         targets.append({'name': stub, 'n': 2 * cfg.get('samples', 5), 'where': 'fn'})
-    if configured:
+    if configured and maybe(rng, 0.2):
+        which = rng.randrange(4)
+        if which == 0:
+            cfg['answers'] = {'expect': {'comparer': {'__cmp__': {'builtin': 'eigenvector_comparer'}},
+                                         'comparer_params': ['[[1,0],[0,2]]', '2']}}
+            answer, rights, wrongs = '[0,1]', ['[0,1]', '[0,-3]', '[0,2*i]'], ['[1,0]', '[1,1]', '[0,0]', '[0,1,0]', '5']
+        elif which == 1:
+            cfg['answers'] = {'expect': {'comparer': {'__cmp__': {'builtin': 'vector_span_comparer'}},
+                                         'comparer_params': ['[1,1]']}}
+            answer, rights, wrongs = '[1,1]', ['[1,1]', '[-2,-2]', '[i,i]'], ['[1,-1]', '[0,0]', '[1,1,1]', '1']
+        elif which == 2:
+            cfg['answers'] = {'expect': {'comparer': {'__cmp__': {'builtin': 'vector_phase_comparer'}},
+                                         'comparer_params': ['[1,i]']}}
+            answer, rights, wrongs = '[1,i]', ['[1,i]', '[i,-1]', '[-1,-i]'], ['[1,-i]', '[2,2*i]', '[0,0]', 'i']
+        else:
+            cfg['answers'] = {'expect': {'comparer': {'__cmp__': {'cls': 'MatrixEntryComparer', 'cfg': {
+                'entry_partial_credit': pick(rng, ['proportional', 0.5, 0, 1]),
+                'entry_partial_msg': pick(rng, ['Some array entries are incorrect, marked below:\n{error_locations}',
+                                                'entries wrong'])}}},
+                                         'comparer_params': [answer]}}
+            for key in ('entry_partial_credit', 'entry_partial_msg'):
+                cfg.pop(key, None)
+    elif configured:
         cfg['answers'] = answers_of(rng, [answer] + rights, partial=None)
     negs = ['A^-1*A*(%s)' % answer, '(%s)*B^-1*B' % answer if answer != 'A*v' and answer != 'v*v' else 'A^-1*A*(%s)' % answer,
             'A^-2*A^2*(%s)' % answer]
